@@ -169,6 +169,41 @@ func runC07Detection(c *Ctx) {
 		})
 	}
 	c.Check("C07.B3s", funcKey(od)+":waits-on-again", eagainRet.Pos(), clean, "on need-more-data the proxy returns without consuming bytes or creating a stream connection", "on need-more-data the proxy consumes bytes, dispatches or closes: detection then depends on how the first bytes were segmented")
+	// (e) (seed C07-12) need-more-data always waits: whatever is reachable behind the EAGAIN edge returns what the waiting
+	// return returns. A matcher may need the whole first frame (tars answers Again until the package is complete), so no
+	// amount of buffered bytes turns "need more" into "unknown protocol" - that would make the verdict depend on where the
+	// reads happened to cut the first frame.
+	var eagainIf *ssa.If
+	for _, g := range guardsAt(eagainRet.Block()) {
+		if bo, ok := g.Cond.(*ssa.BinOp); ok && bo.Op == token.EQL && g.True && isGlobalLoad(bo.Y, "EAGAIN") {
+			eagainIf = g.If
+		}
+	}
+	always := eagainIf != nil
+	var other ssa.Instruction
+	if eagainIf != nil {
+		want := unspill(eagainRet.(*ssa.Return), 0)
+		for blk := range reachableFrom(eagainIf.Block().Succs[0]) {
+			for _, in := range blk.Instrs {
+				ret, isR := in.(*ssa.Return)
+				if !isR || len(ret.Results) == 0 {
+					continue
+				}
+				got := unspill(ret, 0)
+				kw, okw := want.(*ssa.Const)
+				kg, okg := got.(*ssa.Const)
+				if !(okw && okg && kw.Value != nil && kg.Value != nil && kw.Value.ExactString() == kg.Value.ExactString()) {
+					always = false
+					other = in
+				}
+			}
+		}
+	}
+	pos := eagainRet.Pos()
+	if other != nil {
+		pos = other.Pos()
+	}
+	c.Check("C07.B3s", funcKey(od)+":again-always-waits", pos, always, "every return behind the need-more-data edge is the waiting return", "OnData can leave the need-more-data edge with another verdict (a limit on the bytes buffered so far): a protocol whose matcher needs the whole first frame is recognised when the frame arrives in one read and refused (connection closed, or handed to the TCP fallback) when the same bytes arrive in smaller pieces")
 }
 
 // runC07ReadBuffer (B2r): bytes that were received and not yet consumed by a decoder are never thrown away.
